@@ -314,6 +314,8 @@ def parse_tableregion(table_region_dict, custom_tags: Iterable = None):
     for child in table_region_dict:
         if child == 'TableCell':
             table_cell_dicts = table_region_dict['TableCell']
+            if isinstance(table_cell_dicts, dict):
+                table_cell_dicts = [table_cell_dicts]
             for table_cell_dict in table_cell_dicts:
                 cell = parse_table_cell(table_cell_dict, custom_tags)
                 cells.append(cell)
